@@ -160,6 +160,9 @@ structure State where
   scopes : Nat → Scope := fun _ => {}
   futs : Nat → FutSt := fun _ => .pending
   futWaiter : Nat → Option Nat := fun _ => none
+  /-- futures created by user code (`mkFut`); the library's own futures (start, _on_completed_fut,
+  sleep, TaskHandle waits) are not reachable from user code -/
+  userFut : Nat → Bool := fun _ => false
   groups : Nat → Group := fun _ => {}
   nTasks : Nat := 0
   nScopes : Nat := 0
